@@ -98,7 +98,7 @@ def shapeEq (a b : Val) : Except PyErr Bool := do
 /-- `{k.replace(a, b): v for k, v in d.items()}` -/
 def renameKeys (a b : String) (d : Val) : Except PyErr Val :=
   match d with
-  | .dict kvs => .ok (.dict (insertAll [] (kvs.map fun kv => (kv.1.replace a b, kv.2))))
+  | .dict kvs => .ok (.dict (insertAll [] (kvs.map fun kv => (pyReplace kv.1 a b, kv.2))))
   | _ => .error .attributeError
 
 def singleValue (t : Val) : Except PyErr Val :=
